@@ -126,12 +126,6 @@ example : C.delj_guard 2 (C.delj_wj (1 / 10 ^ 9) (1 / 100)) = true ∧ C.delj_gu
   refine ⟨by norm_num [C.delj_guard, C.delj_wj], by norm_num [C.delj_guard, C.delj_wj], ?_⟩
   norm_num [deljC, C.delj_guard, C.delj_wj, C.delj_quot]
 
-theorem div_beq_zero (g k : ℚ) (hk : k ≠ 0) : (g / k == 0) = (g == 0) := by
-  by_cases h : g = 0
-  · simp [h]
-  · have : g / k ≠ 0 := div_ne_zero h hk
-    simp [h, this]
-
 /-- the equilibrium constructors: every scalar test (`genic_switches`, `dom_switches`: in source order), every scalar that enters
     an array formula (`…_formula_args`) and the overall factor are unchanged by (γ, ν, θ0) ↦ (γ/k, kν, θ0/k) -/
 theorem C03_equilibrium_switches_scale (gamma nu beta theta0 h k : ℚ) (hk : 0 < k) :
